@@ -42,6 +42,9 @@ pub enum Op {
     IntoIterRef,
     IterBothEnds,
     IterMutRevAdd(i64),
+    /// Positional adaptors of the row iterators: nth / nth_back / rev().skip / step_by / last / count /
+    /// take().rev(), checked against the same adaptors on the model's rows.
+    IterAdaptors(usize),
 }
 
 #[derive(Clone, Debug, Serialize, Deserialize, PartialEq)]
@@ -115,6 +118,7 @@ fn op_name(op: &Op) -> &'static str {
         Op::IntoIterRef => "into_iter",
         Op::IterBothEnds => "iter-both-ends",
         Op::IterMutRevAdd(_) => "iter_mut-rev",
+        Op::IterAdaptors(_) => "iter-adaptors",
     }
 }
 
@@ -363,6 +367,58 @@ fn run_typed<T: Elem, C: ArrayLength + PartialEq>(sc: &Sc, o: &mut Outcome) {
                     None
                 }
             }),
+            Op::IterAdaptors(k) => {
+                let n = model.len();
+                let a = if n == 0 { 0 } else { k % (n + 1) };
+                let b = (k / 7) % 5 + 1;
+                let want: Vec<Vec<Vec<T>>> = vec![
+                    model.iter().nth(a).into_iter().cloned().collect(),
+                    model.iter().nth_back(a).into_iter().cloned().collect(),
+                    model.iter().rev().skip(a).cloned().collect(),
+                    model.iter().step_by(b).cloned().collect(),
+                    model.iter().rev().step_by(b).cloned().collect(),
+                    model.iter().last().into_iter().cloned().collect(),
+                    model.iter().take(a).rev().cloned().collect(),
+                    model.iter().skip(a).cloned().collect(),
+                ];
+                let want_count = model.iter().count();
+                sut(|| {
+                    let v: Vec<Vec<Vec<T>>> = vec![
+                        m.iter().nth(a).into_iter().map(|r| r.to_vec()).collect(),
+                        m.iter().nth_back(a).into_iter().map(|r| r.to_vec()).collect(),
+                        m.iter().rev().skip(a).map(|r| r.to_vec()).collect(),
+                        m.iter().step_by(b).map(|r| r.to_vec()).collect(),
+                        m.iter().rev().step_by(b).map(|r| r.to_vec()).collect(),
+                        m.iter().last().into_iter().map(|r| r.to_vec()).collect(),
+                        m.iter().take(a).rev().map(|r| r.to_vec()).collect(),
+                        m.iter().skip(a).map(|r| r.to_vec()).collect(),
+                    ];
+                    // the same jumps on the mutable iterator (read-only use)
+                    let vm: Vec<Vec<Vec<T>>> = vec![
+                        m.iter_mut().nth(a).into_iter().map(|r| r.to_vec()).collect(),
+                        m.iter_mut().nth_back(a).into_iter().map(|r| r.to_vec()).collect(),
+                        m.iter_mut().rev().skip(a).map(|r| r.to_vec()).collect(),
+                    ];
+                    (v, vm, m.iter().count(), m.iter_mut().count())
+                })
+                .map(|(v, vm, c1, c2)| {
+                    let names = ["nth", "nth_back", "rev().skip", "step_by", "rev().step_by", "last", "take().rev", "skip"];
+                    for (i, name) in names.iter().enumerate() {
+                        if v[i] != want[i] {
+                            return Some(("iteration".to_string(), format!("iter().{} (n = {}, step = {}) did not visit the rows a table iterator visits", name, a, b)));
+                        }
+                    }
+                    for i in 0..3 {
+                        if vm[i] != want[i] {
+                            return Some(("iteration".to_string(), format!("iter_mut().{} (n = {}) did not visit the rows a table iterator visits", names[i], a)));
+                        }
+                    }
+                    if c1 != want_count || c2 != want_count {
+                        return Some(("iteration".to_string(), format!("count() = {} / {} for {} rows", c1, c2, want_count)));
+                    }
+                    None
+                })
+            }
             Op::IterMutRevAdd(d) => {
                 for (r, row) in model.iter_mut().enumerate() {
                     let col = (r + 1) % c;
@@ -452,14 +508,20 @@ pub fn gen_world(r: &mut Prng, idx: u64) -> Sc {
     let alloc = if (idx / 28) % 3 == 0 { Policy::System } else { Policy::ExactPoison };
     let n = r.range(3, 30);
     let mut ops = Vec::with_capacity(n);
-    let rows = |r: &mut Prng| match r.below(6) {
-        0 => 0,
-        1 => 1,
-        2 => r.range(100, 600),
+    // one world in 500 works with matrices beyond 2 MiB / 2^16 rows (few operations: every check is O(rows))
+    let huge = idx % 500 == 499;
+    let n = if huge { r.range(3, 6) } else { n };
+    let rows = |r: &mut Prng| match r.below(14) {
+        _ if huge => *r.pick(&[5957usize, 5958, 8192, 16384, 32768, 65535, 65536, 65537, 70000]),
+        0 | 1 => 0,
+        2 | 3 => 1,
+        4 | 5 => r.range(100, 600),
+        6 => *r.pick(&[3usize, 4, 5, 7, 8, 9, 15, 16, 17, 31, 32, 33, 63, 64, 65, 127, 128, 129, 255, 256, 257]),
+        7 => *r.pick(&[1023usize, 1024, 1025, 4095, 4096, 4097]),
         _ => r.range(1, 40),
     };
     for _ in 0..n {
-        ops.push(match r.below(24) {
+        ops.push(match r.below(26) {
             0 => Op::New(rows(r)),
             1 => {
                 let n = rows(r);
@@ -481,6 +543,7 @@ pub fn gen_world(r: &mut Prng, idx: u64) -> Sc {
             20 => Op::IterMutAdd(r.range(1, 100) as i64),
             21 => Op::IterBothEnds,
             22 => Op::IterMutRevAdd(r.range(1, 100) as i64),
+            23 | 24 => Op::IterAdaptors(r.next_u64() as usize >> 8),
             _ => Op::IntoIterRef,
         });
     }
@@ -629,7 +692,7 @@ impl Sim for DenseSim {
     }
 
     fn rule(_prop: &str) -> String {
-        "Cases: histories of 3..30 operations (new, with_capacity, from_rows, uninitialized + full write, resize up / down / same, reserve, row write, cell write by [row][col] and by MatrixCoordinates, fill, clone, equality against a logically equal matrix built by another route with different padding bytes, inequality after a one-cell change or a row-count change, forward / reverse / alternating-ends / mutable / reverse-mutable / by-reference iteration) on DenseMatrix<T, C>, T in {u8, u32, f32, i64}, C in {1, 5, 7, 16, 21, 32, 43}, under the system allocator or the exact-align+poison allocator (addresses are multiples of the requested alignment but never of twice it; fresh memory 0xA5; freed memory 0x5A; growth always moves). After every operation: row count, column count, stride >= C and a whole number of 32-byte units, every row's address mod 32 = 0, every cell equal to the Vec<Vec<T>> model. Distinct = distinct tuples (T, C, allocator policy, first operation trigram). Non-trivial = at least three operations (every history).".to_string()
+        "Cases: histories of 3..30 operations (new, with_capacity, from_rows, uninitialized + full write, resize up / down / same, reserve, row write, cell write by [row][col] and by MatrixCoordinates, fill, clone, equality against a logically equal matrix built by another route with different padding bytes, inequality after a one-cell change or a row-count change, forward / reverse / alternating-ends / mutable / reverse-mutable / by-reference iteration, positional adaptors nth / nth_back / rev().skip / step_by / last / count / take().rev) on DenseMatrix<T, C>, T in {u8, u32, f32, i64}, C in {1, 5, 7, 16, 21, 32, 43}, under the system allocator or the exact-align+poison allocator (addresses are multiples of the requested alignment but never of twice it; fresh memory 0xA5; freed memory 0x5A; growth always moves). After every operation: row count, column count, stride >= C and a whole number of 32-byte units, every row's address mod 32 = 0, every cell equal to the Vec<Vec<T>> model. Distinct = distinct tuples (T, C, allocator policy, first operation trigram). Non-trivial = at least three operations (every history).".to_string()
     }
 
     fn required_probes(_prop: &str, _tier: Tier) -> Vec<&'static str> {
